@@ -14,7 +14,7 @@ from permcorr import coq_near, fake_cutoff, random_near
 from reference import min_image_distances
 from tensors import full_basis_tensors, same_span
 
-UNITS = ["Tables", "CutoffGen", "ShapesGeom", "ShapesCombos", "ShapesBasis", "ShapesPerm", "ShapesApi", "ShapesAuxCut", "SkelBasis", "SkelApi", "SkelCut", "SkelPerm", "SolverStruct", "ShapesSolvers", "SkelSolvers"]
+UNITS = ["Tables", "CutoffGen", "ShapesGeom", "ShapesCombos", "ShapesBasis", "ShapesPerm", "ShapesApi", "ShapesAuxCut", "SkelBasis", "SkelApi", "SkelCut", "SkelPerm", "SolverStruct", "ShapesSolvers", "SkelSolvers", "IndepGen", "ShapesCoset", "ShapesSumRule", "ShapesSpg", "ShapesReps", "ShapesO1", "ShapesAuxO1", "ShapesAuxEig", "ShapesAuxBatch", "EigStruct", "SkelSpg", "SkelEig", "SkelMat", "SkelIdx"]
 PROPS = ["props/C07.v", "props/C07_geom.v"]
 EXTRA = ["theories/Cutoff.vo"]
 ASSUMPTIONS = ["'Niggli-reduce, wrap, 27 images' = true minimum image is NOT proved; it is compared with a brute force whose search radius is certified by |t_k| <= d |b*_k| (partial)",
@@ -165,6 +165,29 @@ def check(ctx):
                      f"is {fc.distances[i, j]:.6f}, the minimum-image distance is {ref[i, j]:.6f}",
                      replay={"cell": scr["name"], "lattice": Lr.tolist(), "positions": pos_r.tolist(), "i": int(i), "j": int(j)}, has_input=True)
     ctx.require("random triclinic lattices of both sign patterns were drawn", n_acute >= 5 and n_obtuse >= 5)
+
+    # ---- a supercell with more than 48 atoms inside the order-3 cutoff sphere (54-atom bcc 3x3x3): enlarging the cutoff never shrinks
+    # the basis and a cutoff beyond every distance gives the no-cutoff basis (sizes and span)
+    from symfc.basis_sets import FCBasisSetO3 as _B3
+    scb = make_supercell(base_cells()["bcc_conv"], (3, 3, 3))
+    atb = atoms_of(scb)
+    Db = min_image_distances(np.asarray(scb["lattice"], float), np.asarray(scb["positions"], float))
+    shb = sorted(set(np.round(Db[Db > 1e-8], 6).tolist()))
+    full_b = _B3(atb).run()
+    nfull_b = full_b.basis_set.shape[1]
+    prev_b = 0
+    for cb in [(shb[-3] + shb[-2]) / 2, (shb[-2] + shb[-1]) / 2, shb[-1] + 0.3]:
+        bb = _B3(atb, cutoff=cb).run()
+        nb_b = bb.basis_set.shape[1]
+        inside_b = int((Db[0] < cb).sum())
+        ctx.case({"cell": scb["name"], "order": 3, "cutoff": round(cb, 4), "atoms_inside_cutoff": inside_b, "n_basis": int(nb_b)}, nontrivial=True)
+        ctx.count("large-cutoff-54-atoms")
+        repb = {"cell": scb["name"], "lattice": np.asarray(scb["lattice"]).tolist(), "positions": np.asarray(scb["positions"]).tolist(), "numbers": [int(x) for x in scb["numbers"]], "order": 3, "cutoff": cb}
+        if nb_b < prev_b:
+            ctx.fail("oracle", "C07/oracle/monotone/order3", f"{scb['name']} order 3: enlarging the cutoff to {cb:.4f} ({inside_b} atoms inside) shrinks the basis from {prev_b} to {nb_b}", replay=repb, has_input=True)
+        prev_b = nb_b
+        if cb > shb[-1] and nb_b != nfull_b:
+            ctx.fail("oracle", "C07/oracle/large-cutoff/order3", f"{scb['name']} order 3: cutoff {cb:.4f} beyond every distance gives {nb_b} basis vectors, no cutoff gives {nfull_b}", replay=repb, has_input=True)
 
     # ---- API level: zeros outside, monotone, large cutoff = none, dictionaries
     api_cells = [("tri1", (2, 1, 1)), ("tri2_P1", (2, 1, 1)), ("hcp", (1, 1, 1)), ("tri1", (3, 1, 1)), ("tri2_obtuse", (2, 1, 1)), ("sheared", (2, 1, 1)), ("mono_P", (2, 1, 1))]
